@@ -23,7 +23,15 @@ pub struct InSpec {
 pub enum Case {
     Schema { dim: usize, spec: SchemaSpec, inputs: Vec<InSpec> },
     FromPoly { p: PolySpec, ft: Aff, ff: Option<Aff>, points: Vec<PointSpec> },
-    Slice { t: TreeSpec, refp: Vec<Option<f64>>, points: Vec<PointSpec> },
+    Slice {
+        t: TreeSpec,
+        refp: Vec<Option<f64>>,
+        points: Vec<PointSpec>,
+        /// run infeasible_elimination before remove_axes so that feasibility verdicts and witnesses (of the old
+        /// dimension) are cached when the axes are removed
+        #[serde(default)]
+        prune: bool,
+    },
 }
 
 fn in_spec(dim: usize) -> impl Strategy<Value = InSpec> {
@@ -84,13 +92,14 @@ fn strategy(tier: Tier) -> BoxedStrategy<Case> {
                 super::c02::tree_params_strategy(2, n, p, 3).prop_flat_map(tree_spec),
                 proptest::collection::vec(prop::option::weighted(0.5, (-8i32..=8).prop_map(|k| k as f64 / 2.0)), n),
                 proptest::collection::vec(point_spec(n), 6..12),
+                any::<bool>(),
             )
         })
-        .prop_map(|(t, mut refp, points)| {
+        .prop_map(|(t, mut refp, points, prune)| {
             if refp.iter().all(|r| r.is_some()) {
                 refp[0] = None;
             }
-            Case::Slice { t, refp, points }
+            Case::Slice { t, refp, points, prune }
         });
     prop_oneof![6 => schema, 2 => from_poly, 2 => slice].boxed()
 }
@@ -141,8 +150,9 @@ pub fn run_case(c: &Case, ctx: &mut Ctx) -> CaseResult {
             ctx.set_nontrivial(out.on_boundary >= 1 && rows.len() >= 2);
             Ok(())
         }
-        Case::Slice { t, refp, points } => {
+        Case::Slice { t, refp, points, prune } => {
             ctx.class("slice_remove_axes");
+            ctx.class_if(*prune, "slice_pruned_before_remove_axes");
             let n = t.in_dim;
             let tr = t.resolve(&[]);
             let tref = tr.to_ref();
@@ -153,6 +163,12 @@ pub fn run_case(c: &Case, ctx: &mut Ctx) -> CaseResult {
             let mask = Array1::from_iter(refp.iter().map(|r| r.is_none()));
             let mut s = must("from_slice", || AffTree::<2>::from_slice(&refarr))?;
             must("compose(slice, T)", || s.compose::<false, false>(&tree))?;
+            let mut cached = 0usize;
+            if *prune {
+                must("infeasible_elimination (before remove_axes)", || s.infeasible_elimination())?;
+                cached = s.tree.node_iter().filter(|(_, nd)| !nd.value.state.is_indetermined()).count();
+                ctx.class_if(cached > 0, "slice_states_cached_before_remove_axes");
+            }
             must("remove_axes", || s.remove_axes(&mask))?.map_err(|e| Failure::new(format!("remove_axes rejected a mask of the right length: {e}")))?;
             if s.in_dim != k {
                 return Err(Failure::new(format!("after remove_axes in_dim is {} expected {k}", s.in_dim)));
@@ -184,12 +200,17 @@ pub fn run_case(c: &Case, ctx: &mut Ctx) -> CaseResult {
                 .collect();
             let out = compare_tree("from_slice + compose + remove_axes", &s, &r, &xs, &EquivMode::exact()).map_err(|(m, d)| Failure::with(m, d))?;
             report(ctx, &out);
-            // remove_axes must reset the feasibility caches
-            for (idx, nd) in s.tree.node_iter() {
-                if !nd.value.state.is_indetermined() {
-                    return Err(Failure::new(format!("remove_axes left a cached feasibility state at node {idx}")));
-                }
+            // whatever feasibility verdicts / witnesses the tree carries after remove_axes must be sound for
+            // the tree as it is now (witnesses of the old dimension are not), and further work on it must
+            // neither panic nor change the function
+            crate::histcheck::check_caches(&s, "from_slice + compose + elimination + remove_axes")?;
+            if *prune {
+                must("infeasible_elimination (after remove_axes)", || s.infeasible_elimination())?;
+                crate::histcheck::check_caches(&s, "elimination after remove_axes")?;
+                let out = compare_tree("elimination after remove_axes", &s, &r, &xs, &EquivMode::exact()).map_err(|(m, d)| Failure::with(m, d))?;
+                report(ctx, &out);
             }
+            let _ = cached;
             ctx.set_nontrivial(tr.num_decisions() >= 1 && k < n);
             Ok(())
         }
